@@ -1,7 +1,8 @@
 """Worker for C02: run generated control-flow skeletons under the real AstEval and under CPython.
 
 stdin JSON {"cases": [case, ...]} -> 'RESULT [obs, ...]', obs = {"ps": {"log": [...], "res": [...]}, "py": {...}}.
-A case is {"body": [stmt...], "scripts": [[site, [0/1...]]...], "mgrs": [[id, enter, exit]...]}; the statement
+A case is {"body": [stmt...], "scripts": [[site, [0/1...]]...], "mgrs": [[id, enter, exit]...], "msgs": [[site, cls|None]...]}
+(msgs: what evaluating the message expression ms(site) of an assert raises); the statement
 encoding is documented at `render`.  Only stdlib is imported at module level so that vh.props.c02 can reuse the
 pure helpers (renderer, class table)."""
 import json
@@ -58,7 +59,7 @@ def render_block(stmts, ind, out):
     ["t", n] ["pass"] ["probe", k, name] ["if", k, body, orelse] ["while", k, body, orelse] ["for", k, body, orelse]
     ["break"] ["continue"] ["return", v|None] ["raise", cls, cause|None] ["reraise"]
     ["try", body, [[matcher(list of class names)|None, name|None, body]...], orelse, finalbody]
-    ["with", [mgr ids], body] ["assert", k] ["func", k, body]"""
+    ["with", [mgr ids], body] ["assert", k] / ["assert", k, msg site|None] ["func", k, body]"""
     pad = "    " * ind
     if not stmts:
         raise ValueError("empty block")
@@ -101,7 +102,7 @@ def render_block(stmts, ind, out):
             out.append(pad + "with " + ", ".join(f"M({k})" for k in s[1]) + ":")
             render_block(s[2], ind + 1, out)
         elif op == "assert":
-            out.append(f"{pad}assert c({s[1]})")
+            out.append(f"{pad}assert c({s[1]})" + (f", ms({s[2]})" if len(s) > 2 and s[2] is not None else ""))
         elif op == "func":
             out.append(f"{pad}def g{s[1]}():")
             render_block(s[2], ind + 1, out)
@@ -127,6 +128,7 @@ def make_env(case, log, classes):
     full = {int(k): list(v) for k, v in case["scripts"]}
     cur = {k: list(v) for k, v in full.items()}
     mgrs = {int(m[0]): (m[1], m[2]) for m in case["mgrs"]}
+    msgs = {int(m[0]): m[1] for m in case.get("msgs", [])}
 
     def add(ev):
         if len(log) > MAX_EVENTS:
@@ -152,6 +154,12 @@ def make_env(case, log, classes):
         b = pop(k)
         add(["c", k, b])
         return b
+
+    def ms(j):
+        add(["msg", j])
+        if msgs.get(j) is not None:
+            raise classes[msgs[j]]()
+        return f"message {j}"
 
     def p(k, d, name):
         v = d.get(name)
@@ -195,7 +203,7 @@ def make_env(case, log, classes):
                 raise classes[ex[1]]()
             return bool(ex)
 
-    return {"t": t, "c": c, "p": p, "fr": fr, "It": It, "M": M}
+    return {"t": t, "c": c, "ms": ms, "p": p, "fr": fr, "It": It, "M": M}
 
 
 def result_of(fn_result=None, exc=None):
